@@ -1687,7 +1687,7 @@ def gen_locate_stmt(node, code, codegen):
         codegen.gen_code_for_node(node.row, code)
         gen_code_for_conv(expr.Type.INTEGER, node.row, code, codegen)
 
-    if node.row is None:
+    if node.col is None:
         code.add(('push%', -1))
     else:
         codegen.gen_code_for_node(node.col, code)
